@@ -761,6 +761,54 @@ func init() {
 			return h.Scopes(func(d *gorm.DB) *gorm.DB { return d.Where("age > ?", 1) }).Preload("Pets").Find(&us).Error
 		}, path: only("users", litPreload)},
 	}
+	// other argument forms of association mode: values and slices of values instead of pointers, Select /
+	// Omit on the association save, and Delete / Clear on a record whose relation is loaded in memory
+	forms := []fam{
+		{name: "am_append_value_forms", run: func(h *gorm.DB) error {
+			if err := h.Model(&User{ID: 1}).Association("Pets").Append([]Pet{{Name: name("vf")}, {Name: name("vf")}}); err != nil {
+				return err
+			}
+			if err := h.Model(&User{ID: 1}).Association("Langs").Append(&[]Lang{{Name: name("vf")}}); err != nil {
+				return err
+			}
+			return h.Model(&[]User{{ID: 1}, {ID: 2}}).Association("Pets").Append([]Pet{{Name: name("vf")}}, []Pet{{Name: name("vf")}})
+		}, path: always(litAssocSave0, litAssocSave1)},
+		{name: "am_append_omit_select", run: func(h *gorm.DB) error {
+			if err := h.Model(&User{ID: 1}).Omit("Langs.*").Association("Langs").Append(&Lang{ID: 1}); err != nil {
+				return err
+			}
+			return h.Model(&User{ID: 1}).Select("Pets.Name").Association("Pets").Append(&Pet{Name: name("os")})
+		}, path: always(litAssocSave0, litAssocSave1)},
+		{name: "am_loaded_delete_clear", run: func(h *gorm.DB) error {
+			var u User
+			if err := h.Preload("Pets").Preload("Langs").Preload("Company").Preload("Profile").First(&u, 1).Error; err != nil {
+				return err
+			}
+			if len(u.Pets) > 0 {
+				if err := h.Model(&u).Association("Pets").Delete(&u.Pets[0]); err != nil {
+					return err
+				}
+			}
+			if len(u.Langs) > 0 {
+				if err := h.Model(&u).Association("Langs").Delete(u.Langs[0]); err != nil {
+					return err
+				}
+			}
+			if u.Company != nil {
+				if err := h.Model(&u).Association("Company").Delete(u.Company); err != nil {
+					return err
+				}
+			}
+			var us []User
+			if err := h.Preload("Pets").Preload("Profile").Find(&us).Error; err != nil {
+				return err
+			}
+			return h.Model(&us).Association("Pets").Clear()
+		}, path: func(t string) []string {
+			return []string{litPreload, litAssocSave0, litAssocSave1}
+		}},
+	}
+	families = append(families, forms...)
 	families = append(families, more...)
 	for _, f := range more {
 		switch f.name {
